@@ -20,6 +20,7 @@ deriving DecidableEq, Repr
 /-- shapes of the `"out"` entry -/
 inductive OutKind
   | str                                -- `str`
+  | strInt                             -- `lambda i: str(int(i))`
   | ifElse (t f : Str)                 -- `lambda b: t if b else f`
   | isoformat (args : List Str)        -- `lambda x: x.isoformat(*args)`
 deriving DecidableEq, Repr
@@ -69,6 +70,17 @@ def truthy : Val F → Except Err Bool
   | .str s => .ok (!s.isEmpty)
   | _ => .ok true
 
+/-- `int(v)`: ints and bools as numbers, strings parsed, `None` / dates / times TypeError;
+    floats (truncation, OverflowError on inf) are outside the value domain of the model -/
+def pyIntOf : Val F → Except Err Int
+  | .int i => .ok i
+  | .bool b => .ok (if b then 1 else 0)
+  | .str s => match pyInt? s with
+      | some i => .ok i
+      | none => .error .valueError
+  | .float _ => .error .unmodelled
+  | _ => .error .typeError
+
 def timeSpec? (s : Str) : Option TimeSpec :=
   if s == ['a', 'u', 't', 'o'] then some .auto
   else if s == ['h', 'o', 'u', 'r', 's'] then some .hours
@@ -109,6 +121,9 @@ def isoformat (args : List Str) : Val F → Except Err Str
 def coerceUpnp (row : TypeRow) (v : Val F) : Except Err Str :=
   match row.outK with
   | .str => pyStr fo v
+  | .strInt => match pyIntOf v with
+      | .ok i => intStr i
+      | .error e => .error e
   | .ifElse t f => match truthy v with
       | .ok b => .ok (if b then t else f)
       | .error e => .error e
